@@ -3,7 +3,7 @@ CONSTANTS
   FixEarlyReturn = TRUE
   Builds = {"ok", "noname", "unset", "minver12"}
   HRRs = {FALSE, TRUE}
-  MaxCut = 99
+  MaxCut = 1000000
   Verbose = TRUE
 INIT TInit
 NEXT TNext
